@@ -858,18 +858,23 @@ func (e *Engine) binop(st *State, op token.Token, x, y Value, xt, rt types.Type,
 }
 
 func (e *Engine) strConcat(a, b Term) Term {
-	if sa, ok := e.reverseStr(a.S); ok {
-		if sb, ok := e.reverseStr(b.S); ok {
-			return e.strLit(sa + sb)
-		}
-		if sa == "" {
-			return b
-		}
+	// every concatenation is kept as one text with holes for its symbolic parts, so that a + (b + c), (a + b) + c and
+	// fmt.Sprintf("%s%s%s", a, b, c) are the same term
+	sa, ok := e.reverseStr(a.S)
+	if !ok {
+		sa = e.hole(a)
 	}
-	if sb, ok := e.reverseStr(b.S); ok && sb == "" {
+	sb, ok := e.reverseStr(b.S)
+	if !ok {
+		sb = e.hole(b)
+	}
+	if sa == "" {
+		return b
+	}
+	if sb == "" {
 		return a
 	}
-	return App(SStr, "s.concat", a, b)
+	return e.strLit(sa + sb)
 }
 
 // valueEq decides equality of two executor values as a Bool term.
